@@ -4,6 +4,7 @@ CONSTANTS
   Focuses = {"paths", "forward_dests", "hls_sessions", "hls_muxers", "rtsp_conns", "rtsp_sessions", "rtsps_conns", "rtsps_sessions", "rtmp_conns", "rtmps_conns", "srt_conns", "webrtc_sessions", "moq_sessions", "all"}
   Counts = {1, 2}
   Filters = {"none", "type", "path"}
+  L1Variant = "fixed"
   TwoFocuses = {"paths", "forward_dests", "hls_sessions", "hls_muxers", "rtsp_conns", "rtsp_sessions", "rtsps_conns", "rtsps_sessions", "rtmp_conns", "rtmps_conns", "srt_conns", "webrtc_sessions", "moq_sessions", "all"}
 INVARIANT ModelSane
 INVARIANT EmitCases
